@@ -4,7 +4,8 @@
    i.e. with the self-feed check; tied to the real Simulator.propagatables element for element and to the kind of
    exception on every run).  Evaluation: Model/SimKernel.v propagateAll. *)
 From V Require Import Base.PyInt Gen.WireOps Model.SimKernel Model.Sort Spec.C04.
-From V Require Import Proofs.C04.SortLemmas Proofs.C04.Settle Proofs.C04.Refute Proofs.C04.Main.
+From V Require Import Proofs.C04.SortLemmas Proofs.C04.Settle Proofs.C04.Refute Proofs.C04.Main Proofs.C04.Compose.
+From V Require Spec.C05.
 From Coq Require Import Permutation.
 Local Open Scope nat_scope.
 
@@ -124,6 +125,39 @@ Theorem C04_construction_order_independent : forall (St : Type) (d1 d2 : design 
   propagateAll (with_combs d1 (reorder (combs d1) l1)) vs = propagateAll (with_combs d2 (reorder (combs d2) l2)) vs.
 Proof. exact construction_order_independent_thm. Qed.
 
+(* ---------------------------------------------------------------- composition with C05 (added in session 5)
+   C04's guard implies C05's: a strictly dependency-ordered single-driver list is in Spec.C05.topo order, so every
+   C05 theorem stated under `topo` (idempotent propagateAll, clk(m+n) = clk n . clk m) holds under C04's hypotheses *)
+Theorem C04_ordered_is_topo : forall cs, ordered cs -> single_driver cs -> Spec.C05.topo cs.
+Proof. exact ordered_single_driver_topo_thm. Qed.
+
+(* sorter + simulator end to end: for a design whose combinational list is WHATEVER the sorter returned for its
+   instantiation order, the netlist is settled when the simulator has been constructed and after every clk(n), from
+   every state, for every history of the sequential part (hypotheses: those of C04_sorted_netlist_settles) *)
+Theorem C04_sorted_settled_after_init_and_clk :
+  forall (St : Type) (d : design St) succ K l (st0 : list St) (s : state St) (n : nat),
+  represents (combs d) succ -> single_driver (combs d) ->
+  closed succ (seq 0 (length (combs d))) ->
+  sort_fuel succ K (seq 0 (length (combs d))) = Sorted l ->
+  let d' := with_combs d (reorder (combs d) l) in
+  settled d' (vals (init d' st0)) /\ settled d' (vals (clk d' n s)).
+Proof. exact sorted_settled_after_init_and_clk_thm. Qed.
+
+(* construction-order independence of whole runs: the same netlist (same wires, sequential leaves and clock drivers,
+   combinational leaves instantiated in two different orders), each list sorted by the sorter: the simulator state
+   after construction and after clk(n) from any common state is identical (all wires, leaf states, pending, counter) *)
+Theorem C04_construction_order_independent_run :
+  forall (St : Type) (d1 d2 : design St) succ1 succ2 K l1 l2 (st0 : list St) (s : state St) (n : nat),
+  same_netlist d1 d2 -> seqs d1 = seqs d2 -> drivers d1 = drivers d2 ->
+  single_driver (combs d1) -> (forall c, In c (combs d1) -> definite c) ->
+  represents (combs d1) succ1 -> represents (combs d2) succ2 ->
+  sort_fuel succ1 K (seq 0 (length (combs d1))) = Sorted l1 ->
+  sort_fuel succ2 K (seq 0 (length (combs d2))) = Sorted l2 ->
+  let d1' := with_combs d1 (reorder (combs d1) l1) in
+  let d2' := with_combs d2 (reorder (combs d2) l2) in
+  init d1' st0 = init d2' st0 /\ clk d1' n s = clk d2' n s.
+Proof. exact construction_order_independent_run_thm. Qed.
+
 (* C04-passlimit: repaired in /repo 4992c48 (the limit scales with the number of leaves); the refutation of every CONSTANT limit
    (limit_refuted_thm in Proofs/C04/Main.v) no longer describes the code and is not a property theorem any more *)
 (* the number of passes the sorter needs on n leaves instantiated sink-first is exactly n (so no constant limit works;
@@ -179,6 +213,25 @@ Example C04_end_to_end_nonvacuous : represents (combs two_bad) two_bad_succ /\ (
   sort_fuel two_bad_succ py4hw_loop_limit (seq 0 (length (combs two_bad))) = Sorted [1; 0] /\
   reorder (combs two_bad) [1; 0] = combs two_good.
 Proof. exact two_bad_represents. Qed.
+(* the hypotheses of C04_sorted_settled_after_init_and_clk hold on a design WITH a sequential part (a register
+   toggling through NOT and BUF, the two combinational leaves instantiated sink first): the sorter swaps them, the
+   register toggles (q = 1,0,1 after 1,2,3 cycles from power-up), and the unsorted list is left unsettled by clk(1) *)
+Example C04_sorted_run_nonvacuous :
+  represents (combs tog_bad) tog_bad_succ /\ single_driver (combs tog_bad) /\
+  closed tog_bad_succ (seq 0 (length (combs tog_bad))) /\
+  sort_fuel tog_bad_succ py4hw_loop_limit (seq 0 (length (combs tog_bad))) = Sorted [1; 0] /\
+  with_combs tog_bad (reorder (combs tog_bad) [1; 0]) = tog_good /\
+  map (fun n => vals (clk tog_good n (init tog_good [0%Z]))) [1; 2; 3] = [[1; 0; 0]; [0; 1; 1]; [1; 0; 0]]%Z /\
+  ~ settled tog_bad (vals (clk tog_bad 1 (init tog_bad [0%Z]))).
+Proof. exact tog_sorted_hyps. Qed.
+(* ... and those of C04_construction_order_independent_run (definite leaves, both instantiation orders) *)
+Example C04_two_orders_run_nonvacuous :
+  same_netlist tog_bad tog_good /\ seqs tog_bad = seqs tog_good /\ drivers tog_bad = drivers tog_good /\
+  single_driver (combs tog_bad) /\ (forall c, In c (combs tog_bad) -> definite c) /\
+  represents (combs tog_bad) tog_bad_succ /\ represents (combs tog_good) tog_good_succ /\
+  sort_fuel tog_bad_succ py4hw_loop_limit (seq 0 (length (combs tog_bad))) = Sorted [1; 0] /\
+  sort_fuel tog_good_succ py4hw_loop_limit (seq 0 (length (combs tog_good))) = Sorted [0; 1].
+Proof. exact tog_two_orders_hyps. Qed.
 
 Print Assumptions C04_sort_sound.
 Print Assumptions C04_sort_terminates.
@@ -200,3 +253,6 @@ Print Assumptions C04_pass_count_chain.
 Print Assumptions C04_more_passes_never_hurt.
 Print Assumptions C04_scaled_limit_no_worse.
 Print Assumptions C04_scaled_limit_accepts_chain.
+Print Assumptions C04_ordered_is_topo.
+Print Assumptions C04_sorted_settled_after_init_and_clk.
+Print Assumptions C04_construction_order_independent_run.
